@@ -19,3 +19,5 @@ def check(ctx, prog):
     engine.rule_queue_writers(ctx, prog, thorough=ctx.tier == "thorough")
     kinds.rule_count_kind(ctx, prog)
     kinds.rule_index_kind(ctx, prog)  # a number is a variable index or a shared-domain index, not both
+    model.rule_optional_override(ctx, prog)
+    model.rule_problem_readonly(ctx, prog)
